@@ -402,7 +402,7 @@ FormatterToXML::initAttrCharsMap()
         m_attrCharsMap[i] = 'S';
     }
 
-    for(size_t j = 0x7F; j < 0x9F; j++)
+    for(size_t j = 0x7F; j <= 0x9F; j++)
     {
         m_attrCharsMap[j] = 'S';
     }
@@ -427,7 +427,7 @@ FormatterToXML::initCharsMap()
         m_charsMap[i] = 'S';
     }
 
-    for(size_t j = 0x7F; j < 0x9F; j++)
+    for(size_t j = 0x7F; j <= 0x9F; j++)
     {
         m_charsMap[j] = 'S';
     }
@@ -891,8 +891,10 @@ FormatterToXML::accumDefaultEscape(
         }
         else 
         {
-            if(ch > m_maxCharacter)
+            if(ch > m_maxCharacter ||
+               (m_isXML1_1 == true && XalanUnicode::charLSEP == ch))
             {
+                // A literal LSEP is a line end in XML 1.1.
                 writeNumberedEntityReference(ch);
             }
             else if(ch < SPECIALSSIZE && m_attrCharsMap[ch] == 'S')
@@ -1264,7 +1266,8 @@ FormatterToXML::characters(
 
                 if((ch < SPECIALSSIZE &&
                     m_charsMap[ch] == 'S') ||
-                    ch > m_maxCharacter)
+                    ch > m_maxCharacter ||
+                    (m_isXML1_1 == true && XalanUnicode::charLSEP == ch))
                 {
                     accumContent(chars, firstIndex, i - firstIndex);
 
@@ -1369,7 +1372,8 @@ FormatterToXML::writeAttrString(
 
         if((ch < SPECIALSSIZE &&
             m_attrCharsMap[ch] == 'S') ||
-            ch > m_maxCharacter)
+            ch > m_maxCharacter ||
+            (m_isXML1_1 == true && XalanUnicode::charLSEP == ch))
         {
             accumContent(theString, firstIndex, i - firstIndex);
 
